@@ -151,6 +151,9 @@ TABLE.update({
     "c01_operand_colour_ignores_graph.diff": ("box", "contracts.c02:inject_colors:inject_colors_arg_sets", None),
     "c01_condition_row_colour_not_injected.diff": ("box", "contracts.c02:inject_colors:inject_colors_arg_sets", None),
     "c02_bundle_member_colour_default.diff": ("box", "contracts.c02:inject_colors:inject_colors_arg_sets", None),
+    "c09_user_position_as_hint_only.diff": ("box", "contracts.c09:fixed_positions:fixed_positions_arg_sets", None),
+    "c09_user_position_treated_as_centre.diff": ("box", "contracts.c09:fixed_positions:fixed_positions_arg_sets", None),
+    "c09_coordinate_constant_not_used.diff": ("contracts.c09", "_extract_coordinate", None),
     "c04_self_feedback_on_green.diff": ("box", "contracts.c04:self_feedback:self_feedback_arg_sets", None),
     "c04_cleanup_keeps_wires_of_removed_gate.diff": ("box", "contracts.c04:cleanup_gates:cleanup_arg_sets", None),
     "../seeded/C04-1/patch.diff": ("box", "contracts.c04:optimize_feedback:feedback_arg_sets", None),
